@@ -1,0 +1,77 @@
+// Copyright ©2017 The bíogo Authors. All rights reserved.
+// Use of this source code is governed by a BSD-style
+// license that can be found in the LICENSE file.
+
+//go:build verif
+
+// Contracts for the hvc verifier (see /verif/DESIGN.md). This file contains
+// comments only; it adds nothing to the package.
+package ltf8
+
+// Spec functions written from the CRAM specification, section 2.3 (LTF-8):
+// the number of leading one bits of the first byte gives the number of
+// following bytes (0 to 8); the remaining bits of the first byte are the most
+// significant value bits and the following bytes carry the rest, big-endian.
+//
+//@ spec func ltfLen(u uint64) int =
+//@     ite(u < 0x80, 1, ite(u < 0x4000, 2, ite(u < 0x200000, 3, ite(u < 0x10000000, 4,
+//@     ite(u < 0x800000000, 5, ite(u < 0x40000000000, 6, ite(u < 0x2000000000000, 7,
+//@     ite(u < 0x100000000000000, 8, 9))))))))
+//@ spec func ltfMarker(n int) byte =
+//@     ite(n == 1, 0x00, ite(n == 2, 0x80, ite(n == 3, 0xc0, ite(n == 4, 0xe0,
+//@     ite(n == 5, 0xf0, ite(n == 6, 0xf8, ite(n == 7, 0xfc, ite(n == 8, 0xfe, 0xff))))))))
+//@ spec func ltfHead(u uint64) byte =
+//@     ite(ltfLen(u) >= 8, ltfMarker(ltfLen(u)), ltfMarker(ltfLen(u)) | byte(u >> (8*uint64(ltfLen(u)-1))))
+//@ spec func ltfTail(u uint64, n int, i int) byte = byte(u >> (8*uint64(n-1-i)))
+//@ spec func ltfAnnounced(b0 byte) int =
+//@     ite(b0 & 0x80 == 0, 1, ite(b0 & 0x40 == 0, 2, ite(b0 & 0x20 == 0, 3, ite(b0 & 0x10 == 0, 4,
+//@     ite(b0 & 0x08 == 0, 5, ite(b0 & 0x04 == 0, 6, ite(b0 & 0x02 == 0, 7, ite(b0 & 0x01 == 0, 8, 9))))))))
+//@ spec func ltfHeadBits(b0 byte, n int) uint64 =
+//@     ite(n >= 8, 0, uint64(b0 & (byte(0xff) >> uint64(n))))
+//@ spec func ltfBody(b []byte, n int, k int) uint64 = uint64(b[k]) << (8*uint64(n-1-k))
+//@ spec func ltfDec(b []byte, n int) uint64 =
+//@     ite(n == 1, ltfHeadBits(b[0], 1),
+//@     ite(n == 2, ltfHeadBits(b[0], 2)<<8 | ltfBody(b, 2, 1),
+//@     ite(n == 3, ltfHeadBits(b[0], 3)<<16 | ltfBody(b, 3, 1) | ltfBody(b, 3, 2),
+//@     ite(n == 4, ltfHeadBits(b[0], 4)<<24 | ltfBody(b, 4, 1) | ltfBody(b, 4, 2) | ltfBody(b, 4, 3),
+//@     ite(n == 5, ltfHeadBits(b[0], 5)<<32 | ltfBody(b, 5, 1) | ltfBody(b, 5, 2) | ltfBody(b, 5, 3) | ltfBody(b, 5, 4),
+//@     ite(n == 6, ltfHeadBits(b[0], 6)<<40 | ltfBody(b, 6, 1) | ltfBody(b, 6, 2) | ltfBody(b, 6, 3) | ltfBody(b, 6, 4) | ltfBody(b, 6, 5),
+//@     ite(n == 7, ltfHeadBits(b[0], 7)<<48 | ltfBody(b, 7, 1) | ltfBody(b, 7, 2) | ltfBody(b, 7, 3) | ltfBody(b, 7, 4) | ltfBody(b, 7, 5) | ltfBody(b, 7, 6),
+//@     ite(n == 8, ltfBody(b, 8, 1) | ltfBody(b, 8, 2) | ltfBody(b, 8, 3) | ltfBody(b, 8, 4) | ltfBody(b, 8, 5) | ltfBody(b, 8, 6) | ltfBody(b, 8, 7),
+//@         ltfBody(b, 9, 1) | ltfBody(b, 9, 2) | ltfBody(b, 9, 3) | ltfBody(b, 9, 4) | ltfBody(b, 9, 5) | ltfBody(b, 9, 6) | ltfBody(b, 9, 7) | ltfBody(b, 9, 8)))))))))
+//@ spec func ltfEncodes(b []byte, u uint64) bool =
+//@     len(b) >= ltfLen(u) && b[0] == ltfHead(u) &&
+//@     (forall i in 1..9 :: i < ltfLen(u) ==> b[i] == ltfTail(u, ltfLen(u), i))
+
+//@ func Len
+//@   mode bv
+//@   props C20
+//@   ensures[C20] @len result == ltfLen(uint64(v))
+
+//@ func Encode
+//@   mode bv
+//@   props C20
+//@   requires len(b) >= ltfLen(uint64(v))
+//@   modifies b[0:9]
+//@   ensures[C20] @count result == ltfLen(uint64(v))
+//@   ensures[C20] @head b[0] == ltfHead(uint64(v))
+//@   ensures[C20] @tail forall i in 1..9 :: i < result ==> b[i] == ltfTail(uint64(v), result, i)
+//@   ensures[C20] @frame forall i in 0..len(b) :: i >= result ==> b[i] == old(b[i])
+
+//@ trusted func ext:math/bits.LeadingZeros8
+//@   ensures result == ite(x & 0x80 != 0, 0, ite(x & 0x40 != 0, 1, ite(x & 0x20 != 0, 2, ite(x & 0x10 != 0, 3,
+//@       ite(x & 0x08 != 0, 4, ite(x & 0x04 != 0, 5, ite(x & 0x02 != 0, 6, ite(x & 0x01 != 0, 7, 8))))))))
+
+//@ func Decode
+//@   mode bv
+//@   props C20, C11
+//@   decoder
+//@   ensures[C20] @empty len(b) == 0 ==> (n == 0 && !ok && v == 0)
+//@   ensures[C20] @announced len(b) > 0 ==> n == ltfAnnounced(b[0])
+//@   ensures[C20] @ok len(b) > 0 ==> (ok <==> len(b) >= n)
+//@   ensures[C20] @value ok ==> uint64(v) == ltfDec(b, n)
+//@   ensures[C20] @fail !ok ==> v == 0
+
+//@ lemma[C20] bv roundtrip: forall u uint64, b []byte ::
+//@     ltfEncodes(b, u) ==> (ltfAnnounced(b[0]) == ltfLen(u) && ltfDec(b, ltfLen(u)) == u)
+//@ lemma[C20] bv lenrange: forall u uint64 :: 1 <= ltfLen(u) && ltfLen(u) <= 9
